@@ -38,6 +38,9 @@ func corpus() []core.Case {
 		{Lines: []string{"@ C20 count 1800,100,3,2 86400,300,15,3 432000,1,180,4 5184000,1,600,5",
 			"gen 74657374 4320000", "min 4320000", "max 4320000", "gen 74657374 1799", "gen 74657374 1800", "gen 74657374 0", "gen 74657374 -5", "gen 776f726c64 5443200"}, Tag: "corpus"},
 		{Lines: []string{"@ C20 count 10,0,1,1", "gen 61 10", "min 10", "max 10"}, Tag: "corpus"},
+		// F14 witness: a positive parameter that is a multiple of 2^32 (uint32(max) == 0 before the fix)
+		{Lines: []string{"@ C20 count 10,5,1,4294967296", "gen 61 5", "min 5", "max 5", "gen 61 10", "min 10", "max 10"}, Tag: "corpus"},
+		{Lines: []string{"@ C20 count 10,8589934592,1,4294967301 20,4294967295,3,12884901888", "gen 61 5", "gen 61 10", "min 10", "max 10", "gen 61 25", "min 25", "max 25"}, Tag: "corpus"},
 		{Lines: []string{"@ C20 count", "gen 61 10", "min 10", "max 10"}, Tag: "corpus"},
 	}
 }
@@ -259,6 +262,18 @@ func genCount(r *core.Rand) core.Case {
 			rules[k].i = 1
 		}
 	}
+	big := !malformed && nr > 0 && r.Chance(12)
+	if big { // positive parameters at and above 2^32 (they pass through getRand's integer conversion)
+		vals := []int{1 << 32, 1 << 33, 3 << 32, 1<<32 + r.Range(1, 9), 1<<32 - 1, 1 << 40, 1<<32 - r.Range(1, 3), 5<<32 + r.Range(0, 2)}
+		for k := r.Range(1, 2); k > 0; k-- {
+			j := r.Intn(nr)
+			if r.Bool() {
+				rules[j].im = vals[r.Intn(len(vals))]
+			} else {
+				rules[j].pe = vals[r.Intn(len(vals))]
+			}
+		}
+	}
 	if malformed && nr > 0 {
 		k := r.Intn(nr)
 		switch r.Pick(3, 2, 2, 2, 1, 1, 2) {
@@ -316,6 +331,9 @@ func genCount(r *core.Rand) core.Case {
 	tag := "count"
 	if malformed {
 		tag = "count-malformed"
+	}
+	if big {
+		tag = "count-big-params"
 	}
 	return core.Case{Lines: lines, Tag: tag}
 }
